@@ -230,7 +230,38 @@ def final_checks(q, blocked, state, inflight, cancelled, iters, progs_line):
     return None
 
 
+def stress_expect(line):
+    t = C.parse_sx(line)
+    kv = {x[0]: x[1] for x in t[1:] if isinstance(x, list) and len(x) == 2}
+    n, cap, kind = int(kv.get("n", 1000)), int(kv.get("cap", 4)), kv.get("kind")
+    if t[0] == "qstress":
+        return {"drain": f"drain removed={n} falseempty=0 outoforder=0 lenbad=0 final=0", "fill": f"fill failed=0 lenbad=0 final={n}",
+                "pc": "pc missing=0 dup=0 invented=0 orderbad=0 final=0"}[kind]
+    return {"force": f"force lenbad=0 pushok=0 forcefailed=0 final={cap}",
+            "drain": f"drain removed={n} falseempty=0 outoforder=0 lenbad=0 final=0"}[kind]
+
+
+def stress_predicate(line, obs):
+    want = stress_expect(line)
+    if obs == want:
+        return None
+    return ("under real contention (free-running goroutines) the container left the sequential specification: observed `"
+            + str(obs) + "`, every interleaving of a linearizable container gives `" + want + "`")
+
+
+def gen_stress(rng, tier):
+    big = tier != "quick"
+    n = rng.choice([2000, 5000] if not big else [20000, 50000])
+    k = rng.choice(["drain", "drain", "fill", "pc"])
+    c = ["qstress", ["kind", k], ["n", n if k != "pc" else n // 4], ["spin", rng.choice([2, 3, 4])]]
+    if k == "pc":
+        c += [["prod", rng.choice([1, 2, 3])], ["cons", rng.choice([1, 2, 3])]]
+    return C.sx(c)
+
+
 def full_predicate(line, obs):
+    if line.startswith("(qstress"):
+        return stress_predicate(line, obs)
     if obs.startswith("probe"):
         if obs != "probe unlocked=0 returned=1":
             return ("a cancellation landing between the waiter's select and cond.Wait is lost: the helper's Broadcast ran "
@@ -295,6 +326,8 @@ def gen_case(rng, mix, nthreads=None, nchoices=None):
 
 
 def features(line, obs):
+    if line.startswith("(qstress") or line.startswith("(dstress"):
+        return ["stress:" + line.split("(kind ")[1].split(")")[0]]
     if "probe" in line:
         return ["probe"]
     f = ["cfg:" + cfg_of(line)[1], f"threads:{line.count('(thread')}"]
@@ -313,4 +346,6 @@ def features(line, obs):
 
 
 def nontrivial(line, obs):
+    if line.startswith("(qstress"):
+        return obs is not None
     return obs is not None and "park:" in obs and "wake=[" in obs
